@@ -27,6 +27,18 @@ CHECKS = {
   "explicit-state deviation-bounded exploration with a per-participant reference tally of delivered votes (rules 1-8)",
   "Every broadcast and every step of every explored execution is checked against a boring reference tally of what was delivered to that participant: one message per slot, peer-acceptable, monotone progress, no internal error/panic, PREPARE(0) = longest quorum-backed input prefix, best-ticket CONVERGE prefix adopted, no COMMIT bottom with/ before a possible PREPARE quorum, votes only for own-input prefixes or proven values.",
   "as C01; monitor state is part of the pruning key", "DESIGN §3 C07"),
+ "C08": (True, "quorumenum", "exploration",
+  "exhaustive enumeration of the finite quorum-arithmetic domain against exact integer/rational arithmetic",
+  "All 2.1e9 (whole<=65535, part<=whole) pairs for the strong/weak predicates and quorum intersection, all small and all boundary (whole, support, other) triples through a real vote tally, int64 bands up to 2^61, and every power table over a magnitude alphabet (n<=3, thorough 4) with every signer subset through certificate validator, message validator and tally, which must agree with 3*sum >= 2*total. The domain is finite, so enumeration decides it.",
+  "exact reference arithmetic in int64 below 2^61 and math/big; fake signing backend", "DESIGN §3 C08"),
+ "C15": (True, "inputsenum", "exploration",
+  "bounded-exhaustive enumeration of EC block trees, settings and certificate histories against an independent model of proposal/committee derivation",
+  "Every EC block tree over <=6 (thorough 7) epochs with null rounds, one fork at every point, heads and bases on either branch, x look-back/length/clock settings, plus long linear chains and all honest certificate histories up to length 8 (12): the node's real consensus-inputs component must produce a proposal that starts at the finalized head, follows the head's parent chain, respects the maxima, collapses on divergence, carries EC's power-table CIDs and commits to the next committee; committees must be the table and beacon at the head finalized look-back instances earlier, independent of the EC head.",
+  "model ec.Backend (explicit tree) and in-memory cert store; the unexported component is reached through an injected accessor", "DESIGN §3 C15"),
+ "C19": (True, "inputsenum", "exploration",
+  "bounded-exhaustive enumeration of forged decisions through the simulator host interface and of certchain committees against the node rule",
+  "Every forged decision shape and every signer subset of 3/4-member tables is reported through the simulator's own host interface by a custom adversary; sim.Run must fail exactly when the decision is not a valid proof, and when an honest decision record disagrees. certchain committees of every instance of generated chains are compared with the node's rule and the node's real consensus-inputs component over the same EC and certificates.",
+  "sim default latency model; fake signing; model EC backend", "DESIGN §3 C19"),
 }
 
 ALL = ["C%02d" % i for i in range(1, 21)]
